@@ -5,6 +5,20 @@ From RbxVerif Require Import Base Bytes BytesFacts Lz4.
 Import ListNotations.
 Open Scope N_scope.
 
+Lemma shorter_than_spec l : forall k, shorter_than l k = N.ltb (N.of_nat (length l)) k.
+Proof.
+  induction l as [|x l IH]; intros k; cbn [shorter_than length].
+  - destruct (N.eqb k 0) eqn:E; cbn [negb]; symmetry.
+    + apply N.eqb_eq in E. subst. reflexivity.
+    + apply N.eqb_neq in E. apply N.ltb_lt. cbn. lia.
+  - destruct (N.eqb k 0) eqn:E.
+    + apply N.eqb_eq in E. subst. symmetry. apply N.ltb_ge. lia.
+    + apply N.eqb_neq in E. rewrite IH. rewrite Nat2N.inj_succ.
+      destruct (N.ltb (N.of_nat (length l)) (N.pred k)) eqn:E2; symmetry.
+      * apply N.ltb_lt in E2. apply N.ltb_lt. lia.
+      * apply N.ltb_ge in E2. apply N.ltb_ge. lia.
+Qed.
+
 (* ---- every helper returns a suffix of its input *)
 Lemma lz4_ext_shorter b acc n r : lz4_ext b acc = Some (n, r) -> (length r < length b)%nat.
 Proof.
@@ -23,7 +37,7 @@ Qed.
 
 Lemma take_N_shorter n b h t : take_N n b = Some (h, t) -> (length t <= length b)%nat.
 Proof.
-  unfold take_N. destruct (N.ltb _ _); [discriminate|]. intros H.
+  unfold take_N. destruct (shorter_than _ _); [discriminate|]. intros H.
   apply take_n_length in H. destruct H as [_ ->]. rewrite app_length. lia.
 Qed.
 
@@ -90,7 +104,7 @@ Qed.
 
 Lemma take_N_app a rest : take_N (N.of_nat (length a)) (a ++ rest) = Some (a, rest).
 Proof.
-  unfold take_N. rewrite app_length.
+  unfold take_N. rewrite shorter_than_spec, app_length.
   replace (N.ltb _ _) with false by (symmetry; apply N.ltb_ge; lia).
   rewrite Nat2N.id. apply take_n_app.
 Qed.
